@@ -45,7 +45,17 @@ CasesOf(fi) ==
 
 \* one TLC process per family (VERIF_SHARD = family index), run in parallel by the harness
 Shard == atoi(IOEnv.VERIF_SHARD)
-AllCases == CasesOf(Shard)
+\* shard 11: conditions nested deeply (valid by the grammar; a recursive parser may run out of stack and say so with a
+\* Sigma error - never with anything else): k parentheses around a name, k times `not`, both alternating
+Rep(t, k) == IF k = 0 THEN <<>> ELSE [i \in 1..(k * Len(t)) |-> t[((i - 1) % Len(t)) + 1]]
+DeepDepths == {3, 8, 12, 16, 19, 20, 21, 30, 60}
+DeepCases ==
+    LET f == Families[1]
+        nm == f.names[1]
+    IN  {[fam |-> 11, names |-> f.names, text |-> Rep(<<40>>, k) \o nm \o Rep(<<41>>, k), style |-> "deep"] : k \in DeepDepths}
+        \cup {[fam |-> 11, names |-> f.names, text |-> Rep(<<110,111,116,32>>, k) \o nm, style |-> "deep"] : k \in DeepDepths}
+        \cup {[fam |-> 11, names |-> f.names, text |-> Rep(<<110,111,116,32,40>>, k) \o nm \o Rep(<<41>>, k), style |-> "deep"] : k \in DeepDepths}
+AllCases == IF Shard = 11 THEN DeepCases ELSE CasesOf(Shard)
 
 ASSUME LET S == SetToSeq(AllCases)
        IN  ndJsonSerialize(Out, [i \in 1..Len(S) |-> [id |-> Shard * 1000000 + i] @@ S[i]])
